@@ -104,6 +104,17 @@ def subquery_corpus():
             "select x1.a, (select count(*) from t3 as y where y.a = x1.a) from t1 as x1",
             "select x1.a, (select y.a + sum(y.b) from t3 as y where y.a = x1.a group by y.a) from t1 as x1",
             "select x1.a from t1 as x1 where x1.a in (select y.a from t3 as y where y.b in (select z.b from t2 as z))"]
+    # derived tables (subqueries in FROM): plain, computed, simplifiable, aggregated, joined, filtered
+    for inner in ("select a, b from t1", "select a + 1 as s, b from t1", "select a + 0 as s, b from t1",
+                  "select a * 1 as s, b from t1", "select a * b as s, b from t1", "select - (- a) as s, b from t1",
+                  "select a as s, count(*) as b from t1 group by a", "select max(a) as s, min(b) as b from t1",
+                  "select x.a as s, y.b as b from t1 as x join t3 as y on x.a = y.a",
+                  "select distinct a as s, b from t1", "select a as s, b from t1 where b > 0 order by a limit 3"):
+        col = "a" if inner == "select a, b from t1" else "s"
+        for outer in (f"select d.{col} from ({inner}) as d", f"select d.{col}, d.b from ({inner}) as d where d.b > 1",
+                      f"select d.{col} + 1 from ({inner}) as d order by 1", f"select count(*), max(d.{col}) from ({inner}) as d",
+                      f"select d.{col}, y.b from ({inner}) as d join t3 as y on d.{col} = y.a"):
+            out.append(outer)
     return out
 
 
@@ -194,12 +205,13 @@ def check_c17(args):
         if qinfo.get("source") == "subquery-family":
             key = f"{where}|{qinfo['sql']}"
             stats.setdefault("subq_failures", set()).add(key)
-            if key in known_subq and v.is_known("Q8"):
-                v.note_known("Q8")
-                note("known:Q8 (listed input)")
+            fid = "F32" if " from (select" in qinfo["sql"] else "Q8"
+            if key in known_subq and v.is_known(fid):
+                v.note_known(fid)
+                note(f"known:{fid} (listed input)")
             else:
                 v.violation(dict(qinfo, failure=what, message=msg),
-                            f"{what} [{where}]: {msg[:140]} -- {qinfo['sql'][:220]} (not among the listed failing inputs of Q8)")
+                            f"{what} [{where}]: {msg[:140]} -- {qinfo['sql'][:220]} (not among the listed failing inputs of Q8 / F32)")
             return
         sig = signature(q, msg, where) if known_ok else None
         if sig and v.is_known(sig):
